@@ -17,6 +17,7 @@ CONSTANTS
   Pres = {0, 1}
   N0s = {0, 1, 2}
   Contig = TRUE
+  DropStale = FALSE
 INVARIANTS TypeOK C22Coded
 PROPERTIES C22RCoded C16M
 CHECK_DEADLOCK FALSE
